@@ -647,6 +647,17 @@ func (g *Gen) GenNode(depth int, root bool) *Node {
 						a = g.vary(leaf.Kind, a)
 					}
 					n.Tests = append(n.Tests, TestSpec{Name: "contains", Arg: &a, Opts: g.genOpts()})
+				} else if lt := typedListOf(leaf); lt != "" && !g.Cfg.NoDataTests {
+					// a slice of slices: the needle is itself a slice (an element type Go cannot compare with ==)
+					k := int(mustInt(g.wit[leaf].S, 64))
+					a := Val{T: lt, L: make([]Val, k)}
+					for j := range a.L {
+						a.L[j] = g.wit[leaf.Elem]
+					}
+					if k > 0 && g.p(0.3, "cvar") {
+						a.L[0] = g.vary(leaf.Elem.Kind, a.L[0])
+					}
+					n.Tests = append(n.Tests, TestSpec{Name: "contains", Arg: &a, Opts: g.genOpts()})
 				}
 			default:
 				N := g.intn(0, 3, "sn")
@@ -862,6 +873,14 @@ func (g *Gen) leafValue(n *Node) Val {
 		return g.fixFully(n.Kind, g.vary(n.Kind, w))
 	}
 	return w
+}
+
+// typedListOf names the typed list Val of a Slice(<string|int|float64|bool>) node, "" for anything else.
+func typedListOf(n *Node) string {
+	if n.Kind != KSlice || n.Elem == nil {
+		return ""
+	}
+	return map[string]string{KString: "strlist", KInt: "intlist", KFloat64: "f64list", KBool: "boollist"}[n.Elem.Kind]
 }
 
 // GenTyped draws the typed logical value for a node. A nil Val means absent.
